@@ -165,8 +165,12 @@ def generate(seed, idx, tier):
         # a later batch carries its timestamps at a coarser resolution than
         # the file (which is ns): refused today; a tree that accepts it has to
         # bring the rows back intact like any other append
+        # (never in an append that is also interrupted by an injected
+        # fault: an I/O error while the library puts the old footer back
+        # after its own refusal is a second failure nobody promises to
+        # survive)
         for o in ops[1:]:
-            if 'frame' in o and rng.random() < 0.5:
+            if o['op'] == 'append' and rng.random() < 0.5:
                 unit = rng.choice(('us', 'ms', 's'))
                 for c in o['frame']['cols']:
                     if c[1] == 'dt':
@@ -372,7 +376,11 @@ def _execute(case, fs, path, res, cnt, faults, probes, bump, violation,
                               if p.endswith('.parquet')])
                 # listing order is by name (part.10 sorts before part.2):
                 # stay below ten part files while the summary is away
-                if nfiles + left <= 10 and long_pf is None:
+                # (and only a directory without leftovers of refused or
+                # interrupted appends: a listing would pick those up)
+                if nfiles + left <= 10 and long_pf is None and \
+                        not cnt.get('refused_appends') and \
+                        not cnt.get('fault_interrupted_appends'):
                     for name in ('_metadata', '_common_metadata'):
                         if D.is_local(fs):
                             import os
@@ -484,6 +492,13 @@ def _execute(case, fs, path, res, cnt, faults, probes, bump, violation,
                          else 'fault_interrupted_appends')
                     if plan is None:
                         bump(cnt, 'refused:%s' % type(err).__name__)
+                    if multi and path + '/_metadata' not in fs.files:
+                        # a refused append on a directory whose summary was
+                        # removed: what it left behind would be picked up by
+                        # the next listing - not an append that happened,
+                        # and nothing C07 speaks about; the history ends here
+                        bump(probes, 'refused_append_on_summary_less_dataset')
+                        break
                     if long_pf is not None:
                         # a handle that saw a failed append is not reused
                         long_pf = 'reopen'
@@ -563,7 +578,7 @@ def _execute(case, fs, path, res, cnt, faults, probes, bump, violation,
             'v2' if case['knobs']['v2'] else 'v1', str(case['knobs']['page']),
             case['cat_mode'], case['handle'], ','.join(optrail))))
         bump(cnt, 'successful_appends', ok_appends)
-    if case['knobs']['page'] in (64, 256):
+    if case['knobs']['page'] in (64, 128, 256):
         bump(probes, 'small_page_histories')
     if case['knobs']['v2']:
         bump(probes, 'v2_page_histories')
